@@ -55,7 +55,9 @@ LEAF_OK = [
         r"^alloc::raw_vec::", r"^alloc::string::", r"^alloc::fmt::", r"^alloc::vec::", r"^alloc::str::", r"^alloc::slice::",
         r"^core::ptr::", r"^core::alloc::", r"^core::f(32|64)::", r"^core::array::", r"^core::ops::", r"^core::iter::", r"^core::mem::",
         r"^core::cmp::", r"^core::convert::", r"^core::hash::", r"^core::any::", r"^core::error::", r"^core::ascii::",
-        r"^core::ub_checks::", r"^std::sys::cmath::[a-z0-9_]+$",   # extern "C" libm functions (tan, tgamma, ...): pure r"^core::hint::(assert_unchecked|unreachable_unchecked|must_use|spin_loop)",
+        r"^core::ub_checks::", r"^std::sys::cmath::[a-z0-9_]+$",   # extern "C" libm functions (tan, tgamma, ...): pure
+        r"^core::hint::(assert_unchecked|unreachable_unchecked|must_use|spin_loop)",
+        r"^core::slice::",   # slice algorithms and their panic helpers (copy_from_slice's len_mismatch_fail, sort, ...): no state
         r"^core::panic::", r"^core::ffi::", r"^core::time::",    # core::time is the Duration *type*, no clock
     ]
 ]
@@ -346,6 +348,23 @@ def run(chk, F, tier):
             else:
                 chk.ok("dist-impl", imp["self_ty"], nontrivial=False)
     chk.floor("impl Distribution blocks", nd, 40)
+    # D2: an inherent method named like a provided method of `Distribution` shadows it at every method-call site
+    # (`d.sample_iter(rng)` resolves to the inherent one), so iterating could consume the RNG differently from repeated `sample`.
+    SHADOW = {"sample", "sample_iter", "map"}
+    ni = 0
+    for imp in F.impls:
+        if imp.get("trait"):
+            continue
+        ni += 1
+        if imp.get("self_adt") in dist_adts:
+            bad = sorted(x["name"] for x in imp["items"] if x["name"] in SHADOW)
+            if bad:
+                chk.violation("dist-impl", "inherent:%s:%s" % (imp["self_adt"], ",".join(bad)), "inherent impl of %s defines %s, which shadows the "
+                              "Distribution trait method of the same name: `d.%s(..)` no longer goes through `Distribution::sample`" % (
+                                  imp["self_adt"], bad, bad[0]), where=span_str(imp["span"]))
+            else:
+                chk.ok("dist-impl", "inherent impl of %s: no method shadows sample/sample_iter/map" % imp["self_adt"], nontrivial=False)
+    chk.floor("inherent impl blocks scanned", ni, 30)
 
     # ------------------------------------------------------------------ C: Clone / PartialEq derived or field-wise
     closure_adts = set(dist_adts)
@@ -398,9 +417,22 @@ def run(chk, F, tier):
 def fieldwise_clone(F, imp):
     """A hand-written `clone`: every monomorphic instance must build Self from per-field clones of self's fields."""
     method = None
+    extra = []
     for it in imp["items"]:
         if it["name"] == "clone":
             method = it["path"]
+        elif it["name"] == "clone_from":
+            extra.append(it["path"])
+        else:
+            return False, "unexpected item `%s` in a Clone impl" % it["name"]
+    for pth in extra:
+        insts = [i for i in F.instances if i.get("full") and i["path"] == pth]
+        if not insts:
+            return False, "clone_from is overridden but was not instantiated"
+        for inst in insts:
+            ok, why = _clone_from_body(F, inst)
+            if not ok:
+                return False, "%s: %s" % (inst["key"], why)
     if not method:
         return False, "no clone method found"
     insts = [i for i in F.instances if i.get("full") and i["path"] == method]
@@ -466,4 +498,102 @@ def _fieldwise_clone_body(F, inst):
         sf = source_field(op)
         if sf != i:
             return False, "field %d of the result comes from %s" % (i, "self.field %d" % sf if sf is not None else "something other than a clone of self's field")
+    return True, "ok"
+
+
+def _clone_from_body(F, inst):
+    """A hand-written `clone_from(&mut self, source)`: on every path to the return, every field of *self is (re)written — assigned,
+    mutably borrowed for an in-place copy, or *self assigned as a whole.  A field left untouched keeps the old value, so the
+    'clone' samples differently from its source (must-write dataflow over the CFG, intersection at joins)."""
+    from mirutil import successors
+    self_ref = F.types[inst["locals"][1]["ty"]]
+    self_ty = F.types[self_ref["to"]] if self_ref["k"] == "ref" else None
+    if not self_ty or self_ty["k"] != "adt" or not self_ty["variants"]:
+        return False, "self type not understood"
+    allf = frozenset(range(len(self_ty["variants"][0]["fields"])))
+    # locals that are plain copies/reborrows of the self reference
+    selfs = {1}
+    changed = True
+    while changed:
+        changed = False
+        for b in inst["blocks"]:
+            for s in b["stmts"]:
+                if s["k"] == "assign" and not s["place"]["p"] and s["place"]["l"] not in selfs:
+                    rv = s["rv"]
+                    src = None
+                    if rv["k"] == "use" and rv["op"]["k"] in ("copy", "move") and not rv["op"]["p"]:
+                        src = rv["op"]["l"]
+                    elif rv["k"] == "ref" and rv["place"]["p"] == [{"k": "deref"}]:
+                        src = rv["place"]["l"]
+                    if src in selfs:
+                        selfs.add(s["place"]["l"])
+                        changed = True
+
+    # pointers copied out of a field of *self (elaborated Box derefs: `p = copy ((*self).f.0.0); q = p as *mut _; &mut *q`)
+    derived = {}
+    changed = True
+    while changed:
+        changed = False
+        for b in inst["blocks"]:
+            for s in b["stmts"]:
+                if s["k"] == "assign" and not s["place"]["p"] and s["place"]["l"] not in derived:
+                    rv = s["rv"]
+                    op = rv.get("op") if rv["k"] in ("use", "cast") else None
+                    if not op or op["k"] not in ("copy", "move"):
+                        continue
+                    f = None
+                    if op["l"] in selfs and len(op["p"]) >= 2 and op["p"][0]["k"] == "deref" and op["p"][1]["k"] == "field":
+                        f = op["p"][1]["i"]
+                    elif op["l"] in derived and all(q["k"] == "field" for q in op["p"]):
+                        f = derived[op["l"]]
+                    if f is not None:
+                        derived[s["place"]["l"]] = f
+                        changed = True
+
+    def written(place, borrow=False):
+        if borrow and place["l"] in derived and place["p"] and place["p"][0]["k"] == "deref":
+            return frozenset([derived[place["l"]]])
+        if place["l"] not in selfs or not place["p"] or place["p"][0]["k"] != "deref":
+            return frozenset()
+        if len(place["p"]) == 1:
+            return frozenset() if borrow else allf
+        if place["p"][1]["k"] == "field":
+            return frozenset([place["p"][1]["i"]])
+        return frozenset()
+
+    def transfer(bi, inn):
+        out = set(inn)
+        b = inst["blocks"][bi]
+        for s in b["stmts"]:
+            if s["k"] == "assign":
+                out |= written(s["place"])
+                if s["rv"]["k"] == "ref" and s["rv"].get("bk") == "mut":
+                    out |= written(s["rv"]["place"], borrow=True)
+        t = b["term"]
+        if t and t["k"] == "call":
+            out |= written(t["dest"])
+        return frozenset(out)
+
+    nb = len(inst["blocks"])
+    IN = {0: frozenset()}
+    work = [0]
+    while work:
+        bi = work.pop()
+        out = transfer(bi, IN[bi])
+        for s in successors(inst["blocks"][bi]["term"]):
+            new = out if s not in IN else (IN[s] & out)
+            if s not in IN or new != IN[s]:
+                IN[s] = new
+                work.append(s)
+    nret = 0
+    for bi, b in enumerate(inst["blocks"]):
+        if b["term"] and b["term"]["k"] == "return" and bi in IN:
+            nret += 1
+            got = transfer(bi, IN[bi])
+            miss = sorted(allf - got)
+            if miss:
+                names = [self_ty["variants"][0]["fields"][i].get("name", str(i)) for i in miss]
+                return False, "clone_from leaves field(s) %s of *self unwritten on a path to the return" % names
+    if not nret:
+        return False, "clone_from has no return"
     return True, "ok"
